@@ -66,8 +66,8 @@ func (c17) Name() string      { return "c17" }
 func (c17) CoqModule() string { return "C17" }
 func (c17) Rule() string {
 	return "one Suggestion (names incl. dashes/dots/upper case/long, 6 namespaces, 0-3 labels and 0-2 annotations incl. collisions with the katib label " +
-		"keys and the istio annotation, 10 algorithms, early stopping nil / named / empty name / without config entry, resume policies '', Never, " +
-		"LongRunning, FromVolume, fromvolume) and one katib-config with 1-4 suggestion entries (entry for the algorithm present ~90%, duplicates where " +
+		"keys and the istio annotation, 11 algorithms, early stopping nil / named / empty name / without config entry, resume policies '', Never, " +
+		"LongRunning, FromVolume, fromvolume) and one katib-config with 1-4 suggestion entries (entry for the algorithm present ~95%, duplicates where " +
 		"the last wins, blank image ~4%; custom container name, 0-2 extra ports, ~12% redefine the suggestion port name or number, ~6% reuse the " +
 		"early-stopping port, 0-1 extra volume mounts, ~10% a custom mount named suggestion-volume, command/args/env, custom gRPC/HTTP/exec probes, " +
 		"resources, pull policy, custom service account ~30% (sometimes equal to <name>-<algorithm>), volumeMountPath, PVC spec, PV spec ~40%, PV labels) " +
